@@ -89,7 +89,20 @@ fn check(c: &Case, ctx: &Ctx) -> Outcome {
         // headers with descriptions; several records may share their first token (e.g. copies of one element)
         // (descriptions in the style assemblers write them, topology tag included)
         let wnames: Vec<String> = (0..wrecs.len()).map(|i| if c.wrap % 2 == 1 { format!("IS{} copy{i} len={}", i / 3, wrecs[i].len()) } else if c.wrap % 3 == 2 { format!("{} length={} depth=1.00x circular=true", i + 1, wrecs[i].len()) } else { format!("r{i}") }).collect();
+        // one weed file in nine has a record without a name (a bare '>'): ska may refuse such a file, but if it
+        // takes it, that record's k-mers count like all the others
+        let nameless = wrecs.len() >= 2 && (k / 2 + wrecs.len() + samples.len()) % 9 == 4;
+        let wnames: Vec<String> = wnames.into_iter().enumerate().map(|(i, n)| if nameless && i == 1 { String::new() } else { n }).collect();
         cli::write_fasta(&dir.join("weed.fa"), &wnames, &wrecs, if c.wrap == 0 { None } else { Some(c.wrap as usize) });
+        if nameless {
+            let o = run_ska(ctx, &dir, &["weed", "x.skf", "weed.fa", "--min-freq", "0", "-o", "probe.skf"]);
+            if !o.ok() && o.infra().is_none() {
+                if dir.join("probe.skf").exists() {
+                    return Err(Outcome::Fail("weed refused a weed file with a nameless record but wrote an output file".into()));
+                }
+                return Ok((0, 0, false));
+            }
+        }
         let (_d, full) = model_table(&samples, k, rc);
         let wset: BTreeSet<Vec<u8>> = model::build_sample(&wrecs, k, rc).keys().cloned().collect();
         let orig_bytes = std::fs::read(dir.join("x.skf")).map_err(|e| Outcome::Infra(e.to_string()))?;
